@@ -3,7 +3,7 @@
     FileServer and http.Dir behave as modelled (and do not follow a path out of
     the tree other than through symlinks inside it) is exercised by the harness
     with canary files outside the tree. *)
-From CRS Require Import Lib.Bytes Lib.PathClean Model.Files Proofs.PathProofs.
+From CRS Require Import Lib.Bytes Lib.PathClean Model.Files Proofs.PathProofs Proofs.MuxProofs.
 Open Scope N_scope.
 
 (** For EVERY decoded request path — any bytes, any leftover escapes, dot
@@ -21,6 +21,14 @@ Proof. exact clean_rooted_starts_with_slash. Qed.
 Theorem c09_clean_paths_unchanged : forall segs, Forall good_seg segs ->
   clean_segs segs [] = segs.
 Proof. intros segs H. rewrite clean_segs_id by exact H. reflexivity. Qed.
+
+(** What reaches a handler at all: if net/http's mux (modelled by
+    [Files.mux_redirects]; its correspondence is checked on every run) does not
+    answer a request itself with a 301, the escaped path is its own clean form,
+    possibly with one trailing slash: no dot segments, no repeated slashes. *)
+Theorem c09_handler_paths_canonical : forall e, mux_redirects e = false ->
+  exists segs, Forall good_seg segs /\ (e = join_rooted segs \/ e = join_rooted segs ++ [47]).
+Proof. exact handler_paths_canonical. Qed.
 
 (** The shell endpoints, as predicates on the escaped path: independent of any file tree. *)
 Example c09_shell_paths :
